@@ -697,8 +697,60 @@ fn tracked_region(size: usize, page: usize) -> Result<vm_memory::MmapRegion<Atom
         .map_err(|e| format!("MmapRegionBuilder: {:?}", e))
 }
 
+/// The other constructors of a tracked region: the bitmap is the one the library creates for the
+/// region (one bit per system page).
+#[cfg(not(feature = "xen"))]
+fn library_tracked_region(size: usize, which: u64) -> Result<(vm_memory::MmapRegion<AtomicBitmap>, Option<usize>), String> {
+    use vm_memory::{FileOffset, MmapRegion};
+    let prot = libc::PROT_READ | libc::PROT_WRITE;
+    Ok(match which {
+        0 => (MmapRegion::<AtomicBitmap>::new(size).map_err(|e| format!("MmapRegion::new: {:?}", e))?, None),
+        1 => (MmapRegion::<AtomicBitmap>::from_file(FileOffset::new(memfd(size.div_ceil(4096) as u64 * 4096), 0), size).map_err(|e| format!("from_file: {:?}", e))?, None),
+        2 => (MmapRegion::<AtomicBitmap>::build(None, size, prot, libc::MAP_ANONYMOUS | libc::MAP_PRIVATE).map_err(|e| format!("build: {:?}", e))?, None),
+        _ => {
+            let len = size.div_ceil(4096) * 4096;
+            // SAFETY: harness-owned anonymous mapping, released by the caller after the region is gone.
+            let p = unsafe { libc::syscall(libc::SYS_mmap, 0usize, len, prot, libc::MAP_PRIVATE | libc::MAP_ANONYMOUS, -1isize, 0usize) } as usize;
+            ensure!(p != usize::MAX, "HARNESS-PANIC: mmap failed");
+            // SAFETY: the mapping outlives the region.
+            let r = unsafe { MmapRegion::<AtomicBitmap>::build_raw(p as *mut u8, size, prot, libc::MAP_PRIVATE | libc::MAP_ANONYMOUS) }.map_err(|e| format!("build_raw: {:?}", e))?;
+            (r, Some(p))
+        }
+    })
+}
+
 #[cfg(not(feature = "xen"))]
 pub fn run_region(mode: Mode, t: &mut Tape, cx: &mut Cx) -> Result<(), String> {
+    if t.chance(1, 3) {
+        // regions whose bitmap the library creates itself
+        let which = t.below(4);
+        let size = t.pick(&[4096usize + 17, 2 * 4096, 3 * 4096 - 1, 3 * 4096, 300, 4096]);
+        let (r, raw) = library_tracked_region(size, which)?;
+        note!(cx, "MmapRegion::<AtomicBitmap>::{} of {} bytes (library-created bitmap)", ["new", "from_file", "build", "build_raw"][which as usize], size);
+        cx.label("mmap_region_level");
+        cx.nt("library_created_bitmap");
+        let res = {
+            let tracks = [Track { bm: r.bitmap(), base: 0, page: 4096, host: r.as_ptr(), size, raw: None }];
+            ensure!(r.bitmap().len() == size.div_ceil(4096), "the region's bitmap has {} pages for {} bytes", r.bitmap().len(), size);
+            if t.flag() {
+                let root = r.as_volatile_slice();
+                drive_slice(mode, &root, 0, &tracks, t, cx)
+            } else {
+                let o = t.idx(size + 1);
+                let c = t.idx(size - o + 1);
+                note!(cx, "root = region.get_slice({}, {})", o, c);
+                cx.nt("root_is_region_window");
+                let root = r.get_slice(o, c).map_err(|e| format!("region.get_slice({},{}): {:?}", o, c, e))?;
+                drive_slice(mode, &root, o, &tracks, t, cx)
+            }
+        };
+        drop(r);
+        if let Some(p) = raw {
+            // SAFETY: releasing the harness mapping.
+            unsafe { libc::syscall(libc::SYS_munmap, p, size.div_ceil(4096) * 4096) };
+        }
+        return res;
+    }
     let size = match t.below(4) {
         0 => 4096 + t.idx(20),
         _ => 1 + t.idx(300),
